@@ -3,7 +3,7 @@ from pyvc.verify import Post, Case, Equiv, NativeFacts
 from contracts import common
 
 PROPERTY = 'C09'
-REF_MODULES = ['ref_match']
+REF_MODULES = ['ref_match', 'ref_extra', 'ref_core']
 
 
 def config(cfg):
@@ -46,6 +46,9 @@ def contracts():
         ('TypeMatchError<=TypeError', 'issubclass(TypeMatchError, TypeError)', lambda f: f.issub('matching.TypeMatchError', 'TypeError')),
         ('MatchError<=GlomError', 'issubclass(MatchError, GlomError)', lambda f: f.issub('matching.MatchError', 'core.GlomError')),
     ], func='class TypeMatchError / MatchError'))
+    from contracts import extra
+    cs.append(Equiv('matching.Regex.glomit', 'ref_core.regex_glomit_ref', args={'self': 'inst:matching.Regex', 'target': 'ref', 'scope': 'chainmap'}))
+    cs += common.shared(extra, ['matching._precedence', 'matching.Optional.__init__', 'matching.Required.__init__', 'matching.Optional.glomit', 'matching.Match.verify', 'matching.Match.matches'])
     return cs
 
 
